@@ -282,7 +282,23 @@ def deductive(rep: Report, tier):
                  site_obligations=True)
 
     lemmas(rep)
+    lean_anchor(rep)
     canaries(rep)
+
+
+def lean_anchor(rep: Report):
+    """The spec's multiplication table, conjugation and squared modulus are checked by the Lean kernel against Mathlib's
+    Quaternion (generated file; independent of /repo).  Lean missing or timing out = undecided, never an alarm."""
+    from .. import leanspec
+    import os
+    st, detail, secs, canary_ok = leanspec.check(os.path.join(os.path.dirname(os.path.dirname(os.path.dirname(os.path.abspath(__file__)))), "out", "lean"))
+    status = {"proved": smt.PROVED, "refuted": smt.REFUTED, "undecided": smt.UNDECIDED}[st]
+    rep.add(Obligation(f"{P}.spec.lean.table_conj_normsq_agree_with_mathlib", "qv/spec.py (IDX, SIGN, conj4)", "all-shapes", status, "lean4.33+mathlib", secs,
+                       None if status == smt.PROVED else {"lean_output": detail[-800:]}, kind="lemma"))
+    if canary_ok is not None:
+        rep.canary("C01.canary.lean_rejects_wrong_table", canary_ok, "i*j = -k must not type-check")
+    rep.assumptions.append("spec table anchored to Mathlib's Quaternion by the Lean kernel on this run" if status == smt.PROVED else
+                           "spec table NOT anchored on this run (Lean unavailable): trusted, cross-checked only against numpy-quaternion on basis pairs")
 
 
 def lemmas(rep: Report):
